@@ -32,6 +32,11 @@ pub struct PipeState {
     pub write_calls: Vec<(u64, usize, i64)>, // (time, offered, accepted or -1 for Pending)
     pub shutdown: bool,
     pub max_read_chunk: usize,             // 0 = unlimited
+    /// write-side tear: the first write offered at or after this virtual time (ms) is accepted only for its
+    /// first 3 bytes, the retry of the rest is refused once (Pending; the harness wakes the writer 2 ms later)
+    pub tear_at: Option<u64>,
+    pub tear_stage: u8,
+    pub torn_pending_at: Option<u64>,      // when the refused retry happened
 }
 
 #[derive(Clone)]
@@ -46,7 +51,7 @@ impl Pipe {
             st: Arc::new(Mutex::new(PipeState {
                 start: Instant::now(), inq: VecDeque::new(), eof: false, rd_waker: None, wr_waker: None,
                 out_log: Vec::new(), out_seq: Vec::new(), write_script: VecDeque::new(), reads: Vec::new(), write_calls: Vec::new(),
-                shutdown: false, max_read_chunk: 0,
+                shutdown: false, max_read_chunk: 0, tear_at: None, tear_stage: 0, torn_pending_at: None,
             })),
             out_notify: Arc::new(Notify::new()),
         }
@@ -93,7 +98,11 @@ impl AsyncWrite for ServerEnd {
         let notify = self.0.out_notify.clone();
         let mut s = self.0.st.lock().unwrap();
         let t = s.start.elapsed().as_millis() as u64;
-        let resp = s.write_script.pop_front().unwrap_or(WriteResp::Accept(usize::MAX));
+        let mut resp = s.write_script.pop_front().unwrap_or(WriteResp::Accept(usize::MAX));
+        if let Some(ta) = s.tear_at {
+            if t >= ta && s.tear_stage == 0 && buf.len() > 3 { s.tear_stage = 1; resp = WriteResp::Accept(3); }
+            else if s.tear_stage == 1 { s.tear_stage = 2; s.torn_pending_at = Some(t); resp = WriteResp::Pending; }
+        }
         match resp {
             WriteResp::Pending => {
                 s.write_calls.push((t, buf.len(), -1));
